@@ -489,7 +489,7 @@ Section Loop.
       set (s1 := emit (set_next s q) [VNextAction id (dc_type d) (dc_eval d)]) in *.
       assert (E1 : ext nb s s1).
       { eapply ext_trans_nb; [apply ext_set_next|]. apply ext_emit_neutral. reflexivity. }
-      destruct ((dc_type d =? 1) && negb (uspneed u <=? sp s1)) eqn:ED.
+      destruct ((dc_type d =? 1) && negb (can_skill u s1)) eqn:ED.
       + (* fallback to the default attack *)
         set (s2 := emit s1 [VDefaultAction id]) in *.
         assert (E2 : ext nb s s2) by (eapply ext_trans_nb; [exact E1|apply ext_emit_neutral; reflexivity]).
@@ -564,7 +564,7 @@ Section Loop.
           set (s1 := emit (set_next s q) [VNextAction (t_src t) (dc_type d) (dc_eval d)]) in *.
           assert (E1 : ext nb s s1).
           { eapply ext_trans_nb; [apply ext_set_next|]. apply ext_emit_neutral. reflexivity. }
-          destruct ((dc_type d =? 1) && negb (uspneed u <=? sp s1)).
+          destruct ((dc_type d =? 1) && negb (can_skill u s1)).
           -- destruct (evaluate _ _ 100 _); [destruct (pop_act _ _ _); destruct (run_body _ _ _ _ _ _ _ _); discriminate|].
              inversion EA; subst. apply wext_of_ext; [exact Hi|].
              eapply ext_trans_nb; [exact E1|apply ext_emit_neutral; reflexivity].
@@ -606,7 +606,7 @@ Section Loop.
     - inversion H; subst. apply ext_refl, nb_nil.
     - destruct (get_unit (units s) (ur_target r)) as [u|]; [|discriminate].
       destruct (negb (uchar u)); [discriminate|].
-      destruct (PrimFloat.eqb _ 1).
+      destruct (can_ult u).
       + eapply ext_trans_nb; [apply ext_enqueue|]. eapply ext_trans_nb; [apply ext_set_energy|]. eapply IH. exact H.
       + eapply IH. exact H.
   Qed.
@@ -624,7 +624,7 @@ Section Loop.
   Proof.
     induction reqs as [|r reqs IH]; intros s s'; cbn [ult_reqs]; [discriminate|].
     destruct (get_unit (units s) (ur_target r)) as [u|]; [|discriminate].
-    destruct (negb (uchar u)); [discriminate|]. destruct (PrimFloat.eqb _ 1); apply IH.
+    destruct (negb (uchar u)); [discriminate|]. destruct (can_ult u); apply IH.
   Qed.
   Lemma ult_check_no_stop s s' : ult_check s <> Stop s'.
   Proof. unfold ult_check. destruct (ults_q s); apply ult_reqs_no_stop. Qed.
@@ -1001,8 +1001,8 @@ Qed.
 (* non-vacuity witness *)
 Definition demo_cfg : config :=
   mkCfg
-    [mkUD 0 true 100 1000 100 0 1 1 TEnemies TEnemies TEnemies [0%nat; 0%nat];
-     mkUD 100 false 80 100 0 0 0 0 TEnemies TEnemies TEnemies [1%nat]]
+    [mkUD 0 true 100 1000 100 0 1 1 TEnemies TEnemies TEnemies [0%nat; 0%nat] [] [];
+     mkUD 100 false 80 100 0 0 0 0 TEnemies TEnemies TEnemies [1%nat] [] []]
     [[SInsertAbility 1 75 TSelfSel [] 2%nat; SAttack 3 [TPrimary; TPrimary] true 30];
      [SAttack 4 [TId 1] true 10];
      [SAttack 5 [TId 2] true 100; SSample]]
